@@ -171,7 +171,7 @@ def check_c20(tier):
 
 def check_c01(tier):
     q = tier == "quick"
-    kinds = STRUCT_KINDS + ("set_attr",)
+    kinds = STRUCT_KINDS + ("set_attr", "primitive")
     stages = [
         dict(name="noseg-bfs", worlds=["noseg-2d", "noseg-2d-given"], seeds=HAND_SEEDS, depth=2 if q else 3, kinds=kinds),
         dict(name="noseg-configs", worlds=["noseg-2d-axes", "noseg-3d", "noseg-2d-fd"], seeds=HAND_SEEDS, depth=1 if q else 2, kinds=kinds),
